@@ -5,11 +5,13 @@ import (
 	"fmt"
 	"os"
 	"sort"
+	"strings"
 	"sync"
 
 	"verif/lib"
 
 	"github.com/aml-org/amf-custom-validator/pkg"
+	"github.com/aml-org/amf-custom-validator/pkg/config"
 )
 
 // childMain: small one-shot helpers run in fresh processes.
@@ -49,6 +51,14 @@ func childMain(args []string) {
 	switch args[0] {
 	case "report":
 		o := lib.Validate(string(p), string(d))
+		if cfg := os.Getenv("VERIF_CHILD_CFG"); cfg != "" {
+			// "<include 0|1>|<report schema iri>|<lexical schema iri>"
+			parts := strings.SplitN(cfg, "|", 3)
+			if len(parts) == 3 {
+				rc := config.ReportConfiguration{IncludeReportCreationTime: parts[0] == "1", ReportSchemaIri: parts[1], LexicalSchemaIri: parts[2]}
+				o = lib.ValidateCfg(string(p), string(d), nil, lib.Epoch2000, rc)
+			}
+		}
 		if o.Failed() {
 			fmt.Print("ERROR: " + o.ErrString())
 			return
